@@ -130,3 +130,51 @@ func Set(name string, e *Expr) *Node { return &Node{K: "set", Names: []string{na
 func If(c *Expr, body, els []*Node) *Node {
 	return &Node{K: "if", E: c, Body: body, Else: els, HasElse: els != nil}
 }
+
+// PruneVars drops Execute variables the program never mentions (keeps cases small).
+func PruneVars(p *Program) {
+	used := map[string]bool{}
+	var ex func(e *Expr)
+	ex = func(e *Expr) {
+		if e == nil {
+			return
+		}
+		if e.K == "var" || e.K == "call" || e.K == "pipe" {
+			used[e.Name] = true
+		}
+		ex(e.A)
+		ex(e.B2)
+		ex(e.C)
+		for _, a := range e.Args {
+			ex(a)
+		}
+	}
+	var ns func(list []*Node)
+	ns = func(list []*Node) {
+		for _, n := range list {
+			ex(n.E)
+			ex(n.Ctx)
+			for _, e := range n.Es {
+				ex(e)
+			}
+			for _, p := range n.Params {
+				ex(p.E)
+			}
+			if n.Hdr != nil {
+				ns([]*Node{n.Hdr})
+			}
+			ns(n.Body)
+			ns(n.Else)
+			ns(n.Content)
+			ns(n.Catch)
+		}
+	}
+	for _, f := range p.Files {
+		ns(f.Body)
+	}
+	for k := range p.Vars {
+		if !used[k] {
+			delete(p.Vars, k)
+		}
+	}
+}
